@@ -487,6 +487,10 @@ func (t *Trans) execUnOp(fr *Frame, x *ssa.UnOp) {
 			fr.vals[x] = t.immutableGlobal(g)
 			return
 		}
+		if g, ok := x.X.(*ssa.Global); ok && t.P.libSentinel(g) {
+			fr.vals[x] = t.libSentinelTerm(g)
+			return
+		}
 		if fv, ok := x.X.(*ssa.FreeVar); ok {
 			for i, f2 := range fr.fn.FreeVars {
 				if f2 == fv {
@@ -542,6 +546,27 @@ func (t *Trans) immutableGlobal(g *ssa.Global) string {
 			}
 		}
 	}
+	return sym
+}
+
+// libSentinel: an exported error variable "Err..." of a library package. Assumed never reassigned (A17): its value
+// is a fixed non-nil error.
+func (P *Prog) libSentinel(g *ssa.Global) bool {
+	if g.Pkg == nil || strings.HasPrefix(g.Pkg.Pkg.Path(), modPath) || !strings.HasPrefix(g.Name(), "Err") {
+		return false
+	}
+	pt, ok := g.Type().(*types.Pointer)
+	return ok && types.Identical(pt.Elem(), types.Universe.Lookup("error").Type())
+}
+
+func (t *Trans) libSentinelTerm(g *ssa.Global) string {
+	sym := "GX_" + smtSym(g.Pkg.Pkg.Name()+"_"+g.Name())
+	if _, ok := t.env.globals[sym]; ok {
+		return sym
+	}
+	t.env.Global(sym, "Val")
+	t.env.extraDecl = append(t.env.extraDecl, fmt.Sprintf("(assert (not (= %s vnil)))", sym))
+	t.trustedUsed["library error sentinel "+g.Pkg.Pkg.Path()+"."+g.Name()+" is a constant (A17)"] = true
 	return sym
 }
 
